@@ -73,6 +73,10 @@ report contains violation if {
 	# extract the text from location to see if '=' is used for
 	# assignment
 	regex.match(`else\s*=`, loc.location.text)
+
+	# the text match alone is fooled by an "else=" later on the line, like in a string
+	not value.head.assign
+
 	eq_col := _eq_col(loc.location, value.head.value.location)
 
 	violation := result.fail(rego.metadata.chain(), object.union(
